@@ -409,6 +409,9 @@ func ruleC01(c *Ctx) {
 		c.count("C01-R3/verify-sites", n)
 		c.floor("C01-R3/verify-sites", 2)
 	}
+	// the EncryptedAssertion handler promotes plaintext to a direct child of the element it processes: the same
+	// direct-child requirement applies to it (shared with C07-R3)
+	encryptedDirectChild(c, "C01-R4")
 	screenRule(c, "C01-R5")
 	sideDoors(c, "C01-R6")
 	c.rule("C01-R7", "signatures are checked against the store and clock configured NOW: the validation context is built per call in validationContext() from sp.IDPCertificateStore / sp.Clock (no caching), and every Validate receiver comes from it")
@@ -1166,4 +1169,24 @@ func kindSeparation(c *Ctx, rule string) {
 	}
 	c.count(rule+"/kinds", len(kinds))
 	c.floor(rule+"/kinds", 6)
+}
+
+// encryptedDirectChild: every generic invocation of the EncryptedAssertion traversal handler in decryptAssertions
+// returns an error unless element.Parent() == the traversed root.
+func encryptedDirectChild(c *Ctx, rule string) {
+	da := c.kernel("(*SAMLServiceProvider).decryptAssertions", "*", "-(*SAMLServiceProvider).getDecryptCert", "-types.(*EncryptedAssertion).DecryptBytes", "-parseResponse")
+	if da == nil {
+		return
+	}
+	n := 0
+	for _, t := range da.Terms {
+		for _, e := range t.St.events {
+			if e.Kind == EvIterEnter {
+				n++
+				checkDirectChild(c, rule, t, shortFn(da.Root), e)
+			}
+		}
+	}
+	c.count(rule+"/encrypted-handlers", n)
+	c.floor(rule+"/encrypted-handlers", 1)
 }
